@@ -136,7 +136,9 @@ theorem clone_registries_total (c : Cfg) (hf : c.cloneRegsFiltered = true) (hv :
   simp only [cloneRegsOn, hf, hv, Bool.not_true, Bool.and_false, Bool.false_and, Bool.false_eq_true, if_false]
   exact cloneRegs_filtered_isSome _ _ _ _
 
-/-- PARTIAL (the code of /repo after d328eb2: filtered, but replayed through `register_resolver`): total as long as no
+/-- SUBSUMED for the working tree by the full `clone_registries_total` / `current_clone_registries_total` (entries copied by value: no
+    premise); kept because it is the exact statement for the intermediate variant.
+    PARTIAL (the code of /repo after d328eb2: filtered, but replayed through `register_resolver`): total as long as no
     field carries a resolver different from the one registered for it -/
 theorem clone_registries_total_partial (c : Cfg) (hf : c.cloneRegsFiltered = true) (exists_ : String → String → Bool) (ff : FieldFns)
     (h : RHeap) (src : Registries) (h1 : replayConflicts exists_ ff.resolver h src.resolvers = false)
